@@ -159,9 +159,10 @@ Proof. exact pair_readable_mirror. Qed.
 Print Assumptions pair_poll_r_mirror.
 
 (* send descriptor raised <=> a non-blocking send would not return NNG_EAGAIN.
-   PARTIAL: kept by every step except -- in the source as pinned (fx = false) -- pipe_stop;
-   with the repair (fx = true: clear only when the send buffer is full) kept by all steps.
-   What is missing for the pinned source is refuted below. *)
+   Parametric form: kept by every step when the pipe_stop repair is present (fx = true: clear
+   only when the send buffer is full); for the unrepaired form (fx = false) kept by every
+   step except pipe_stop, where it is refuted (below).  The full statement for the current
+   source is pair_poll_w_mirror_holds. *)
 Theorem pair_poll_w_mirror_partial : forall k fx s o s' outs,
   PInv s -> op_ok s o -> o <> PSockClose -> (fx = true \/ forall p, o <> PPipeClose p) ->
   WInv s -> pair_step k fx s o = (s', outs) -> WInv s'.
@@ -174,9 +175,23 @@ Theorem pair_poll_mirror_histories : forall k fx ops s, PInv s -> ops_ok k fx s 
 Proof. exact pair_run_mirror. Qed.
 Print Assumptions pair_poll_mirror_histories.
 
-(* the pinned pipe_stop: send buffer of 2, a peer comes and goes => descriptor not raised,
-   yet a non-blocking send succeeds (a missed wake-up; before the peer came the same state
-   had the descriptor raised).  Replays on the implementation. *)
+(* for the source as it is now (the instances of Pair0Model / Pair1Model, whose fx is read
+   from the current tree): the send descriptor mirror is kept by EVERY step of an open
+   socket.  Holds since fix 6a91792; if pipe_stop regresses to the unconditional clear the
+   generated flag becomes false and this theorem no longer checks. *)
+Theorem pair_poll_w_mirror_holds : forall s o s' outs,
+  PInv s -> op_ok s o -> o <> PSockClose -> WInv s ->
+  pair0_step s o = (s', outs) \/ pair1_step s o = (s', outs) \/ pair1_raw_step s o = (s', outs) -> WInv s'.
+Proof.
+  intros s o s' outs HI Hok Hn HW [H|[H|H]];
+    (eapply pair_writable_mirror; [exact HI|exact Hok|exact Hn|left; reflexivity|exact HW|exact H]).
+Qed.
+Print Assumptions pair_poll_w_mirror_holds.
+
+(* the pipe_stop of the tree as first pinned (fx = false, before fix 6a91792): send buffer
+   of 2, a peer comes and goes => descriptor not raised, yet a non-blocking send succeeds (a
+   missed wake-up; before the peer came the same state had the descriptor raised).  It
+   replayed on the implementation (findings/known_findings.txt, fixed: property=C15 6a91792). *)
 Theorem pair_poll_w_mirror_refuted : forall k,
   let s := fst (pair_run k false pair_init (poll_w_witness k)) in
   ops_ok k false pair_init (poll_w_witness k) /\
